@@ -156,6 +156,7 @@ pub fn property() -> Property {
             name: "poison-then-probe",
             rule: "see property rule",
             cases: (1_200_000, 5_000_000),
+            fuzz_decode: Some(crate::fuzzdec::c16_case),
             strategy,
             check,
             required_classes: &["prefix-leaves-open-context", "prefix-ends-with-empty-free-list", "prefix-ends-with-error", "free-list-full-at-recovery"],
